@@ -116,35 +116,48 @@ arrival, a failing write at any point, **a call of `http_request_cancel` while a
 body limit, HEAD or not, a request with or without body, and whatever happens to the connection attempt
 (`pre`: cancelled before it completes / refused / connected): the request ends; no fault occurred (no `free`
 of a block that is not live, no failed `assert` in netbuf/network_connect, no use of the cookie after it was
-freed); **no block is live**, no descriptor is open; at most one block went to the caller — the body buffer,
-which `http.h` makes the callback's to free — and none at all if the request was cancelled or the callback
-got `NULL` or a too-big response. -/
+freed); **no block is live**, no descriptor is open; and exactly this went to the caller: nothing if the
+request was cancelled, else the body buffer — which `http.h` makes the callback's to free — **iff** the
+callback got a response with a non-empty body (`body == NULL` exactly when there is no body, when it is too
+big, or when the response is `NULL`). -/
 theorem leaks_nothing {σ : Type} (ovf : Bool → Nat → Int) (oracle : σ → Nat → Nat → σ × Turn) (o : σ)
     (ishead : Bool) (max : Nat) (data : Bytes) (hasBody : Bool) (pre : Pre) :
     ∃ cbs cancelled r tr, runAllR ovf oracle o ishead max data hasBody pre = .ended cbs cancelled r tr ∧
-      r.err = none ∧ r.live = [] ∧ r.fds = 0 ∧ r.handedBody ≤ 1 ∧
+      r.err = none ∧ r.live = [] ∧ r.fds = 0 ∧
       (cancelled = true → r.handedBody = 0) ∧
-      (∀ resp, cbs = [resp] → (∀ x b, resp = some x → x.body = some b → False) → r.handedBody = 0) := by
+      (∀ resp, cbs = [resp] → r.handedBody =
+        match resp with
+        | none => 0
+        | some x =>
+          match x.body with
+          | none => 0
+          | some b => if b.length = 0 then 0 else 1) := by
   have h := runAllR_ok ovf oracle o ishead max data hasBody pre
   generalize runAllR ovf oracle o ishead max data hasBody pre = out at h
   cases out with
   | abort w tr => exact absurd h (by simp [OutcomeOK])
   | ended cbs cancelled r tr =>
-    obtain ⟨h1, h2, _, _, _, h6, _, h8, h9⟩ := h
-    refine ⟨cbs, cancelled, r, tr, rfl, h1, ?_, h6, h8, ?_, ?_⟩
+    obtain ⟨h1, h2, _, _, _, h6, _, h9⟩ := h
+    refine ⟨cbs, cancelled, r, tr, rfl, h1, ?_, h6, ?_, ?_⟩
     · apply List.eq_nil_iff_forall_not_mem.mpr
       intro k hk
       have := List.count_pos_iff.mpr hk
       rw [h2 k] at this; omega
     · intro hc; subst hc; simp only [if_true] at h9; exact h9.2
-    · intro resp hcb hnb
+    · intro resp hcb
       cases cancelled with
-      | true => simp only [if_true] at h9; exact h9.2
+      | true => simp only [if_true] at h9; rw [h9.1] at hcb; cases hcb
       | false =>
         simp only [Bool.false_eq_true, if_false] at h9
         obtain ⟨resp', e, _, hz⟩ := h9
         rw [hcb] at e; cases e
-        exact hz hnb
+        rw [hz]
+        cases resp with
+        | none => rfl
+        | some x =>
+          cases hb : x.body with
+          | none => simp [bodyNonEmpty, hb]
+          | some b => simp only [bodyNonEmpty, hb]; cases b <;> simp
 
 /-- the sample response delivered bytewise with a request body; the caller cancels while the 53rd wait is
     pending — inside the chunk, when header copy, header array and a partly filled body buffer are live (5
@@ -159,6 +172,12 @@ example :
 example :
     (match runAllR (fun _ _ => 0) (exOracle 1000 1000) 0 false 2 Percival.Proofs.HttpSamples.sampleStream true .connected with
      | .ended [some x] false r _ => r.live.isEmpty && r.err.isNone && r.handedBody == 1 && x.body == some [104, 105]
+     | _ => false) = true := by decide +kernel
+
+/-- a HEAD request: the response has an empty body (`bodylen == 0`), no buffer goes to the caller -/
+example :
+    (match runAllR (fun _ _ => 0) (exOracle 1000 1000) 0 true 2 Percival.Proofs.HttpSamples.sampleStream false .connected with
+     | .ended [some x] false r _ => r.live.isEmpty && r.handedBody == 0 && x.body == some []
      | _ => false) = true := by decide +kernel
 
 /-- limit 1: the partly filled body buffer is freed by `toobig`, nothing goes to the caller -/
@@ -178,7 +197,7 @@ theorem no_callback_after_cancel {σ : Type} (ovf : Bool → Nat → Int) (oracl
     cbs = [] ∧ r.ncb = 0 ∧ r.pending = [] := by
   have h := runAllR_ok ovf oracle o ishead max data hasBody pre
   rw [hrun] at h
-  obtain ⟨_, _, h3, h4, h5, _, h7, _, h9⟩ := h
+  obtain ⟨_, _, h3, h4, h5, _, h7, h9⟩ := h
   simp only [if_true] at h9
   refine ⟨h9.1, by rw [h7, h9.1]; rfl, ?_⟩
   simp [RSt.pending, h3, h4, h5]
@@ -207,7 +226,7 @@ theorem exactly_one_callback_or_cancelled {σ : Type} (ovf : Bool → Nat → In
   cases out with
   | abort w tr => exact absurd h (by simp [OutcomeOK])
   | ended cbs cancelled r tr =>
-    obtain ⟨_, _, _, _, _, _, h7, _, h9⟩ := h
+    obtain ⟨_, _, _, _, _, _, h7, h9⟩ := h
     refine ⟨cbs, cancelled, r, tr, rfl, ?_⟩
     cases cancelled with
     | true =>
@@ -238,7 +257,7 @@ theorem no_registration_survives {σ : Type} (ovf : Bool → Nat → Int) (oracl
   cases out with
   | abort w tr => exact absurd h (by simp [OutcomeOK])
   | ended cbs cancelled r tr =>
-    obtain ⟨_, _, h3, h4, h5, h6, _, _, _⟩ := h
+    obtain ⟨_, _, h3, h4, h5, h6, _, _⟩ := h
     exact ⟨cbs, cancelled, r, tr, rfl, by simp [RSt.pending, h3, h4, h5], by simp [RSt.regs, h3, h4, h5], h6⟩
 
 /-- registrations do exist during the run (a read wait and a write at every snapshot of this run), and
@@ -262,7 +281,7 @@ theorem response_in_range {σ : Type} (ovf : Bool → Nat → Int) (oracle : σ 
      | none => r.handedBody = 0) := by
   have h := runAllR_ok ovf oracle o ishead max data hasBody pre
   rw [hrun] at h
-  obtain ⟨_, _, _, _, _, _, _, _, h9⟩ := h
+  obtain ⟨_, _, _, _, _, _, _, h9⟩ := h
   cases cancelled with
   | true => simp only [if_true] at h9; exact absurd h9.1 (by simp)
   | false =>
@@ -273,7 +292,7 @@ theorem response_in_range {σ : Type} (ovf : Bool → Nat → Int) (oracle : σ 
     refine ⟨hr.1, hr.2.1, ?_⟩
     cases hb : x.body with
     | some b => have := hr.2.2; rw [hb] at this; exact this
-    | none => exact hz (fun y b' e1 e2 => by cases e1; rw [hb] at e2; cases e2)
+    | none => rw [hz]; simp [bodyNonEmpty, hb]
 
 example :
     (match runAllR (fun _ _ => 0) (exOracle 1000 1000) 0 false 2 Percival.Proofs.HttpSamples.sampleStream true .connected with
